@@ -641,6 +641,22 @@ func (w *World) onEmit(tc *TapCommit, c commit.Commit) {
 		}
 		st.queue = append(st.queue, w.sim.steps+delay)
 	}
+	if st.or.stream && w.viol == nil {
+		// what a consumer of commit.Channel receives: the clone must carry its own block and
+		// nothing else (Replay marks every block it finds in the buffers as changed)
+		cl := c.Clone()
+		if cl.ID != c.ID || cl.Chunk != c.Chunk {
+			w.fail(violation("stream/clone-header", "%s: its clone carries (id %d, block %d)", tc, cl.ID, cl.Chunk))
+		}
+		for _, b := range cl.Updates {
+			b.RangeChunks(func(ch commit.Chunk) {
+				if ch != c.Chunk && w.viol == nil {
+					w.fail(violation("stream/clone-carries-other-block", "%s: buffer %q of its clone (what commit.Channel delivers) also carries operations of block %d", tc, b.Column, ch))
+				}
+			})
+		}
+		w.stats.Checks++
+	}
 	if mt := st.txnOf[tc.Thread]; mt != nil && w.txns[tc.Thread] == mt {
 		if st.emitted[mt] == nil {
 			st.emitted[mt] = map[uint32]int{}
